@@ -24,7 +24,7 @@ VARIABLES l,     \* next line of Rec to consume
 
 vars == <<l, st, e, scr>>
 
-Ids == 0..7
+Ids == 0..15
 NoEvent == [ev |-> "none", id |-> 0, line |-> 0]
 
 TraceInit == l = 1 /\ st = [i \in Ids |-> NoInst] /\ e = NoEvent /\ scr = ""
@@ -89,6 +89,7 @@ P(name) ==
     [] name = "C07_FftExact"     -> OnCall => C07_FftExact(I, e)
     [] name = "C07_FftBlock"     -> OnNewOk => C07_FftBlock(I, e)
     [] name = "C09_NoHeap"       -> OnCall => C09_NoHeap(I, e)
+    [] name = "C11_MaskUntouched" -> OnCall => C11_MaskUntouched(I, e)
     [] name = "C12_RatioDomain"  -> OnCall => C12_RatioDomain(I, e)
     [] name = "C12_RejectNoop"   -> OnCall => C12_RejectNoop(I, e)
     [] name = "C12_ChunkDomain"  -> OnCall => C12_ChunkDomain(I, e)
@@ -117,6 +118,7 @@ H_C07_NoDrift == Hard("C07_NoDrift")           S_C07_NoDrift == Soft("C07_NoDrif
 H_C07_FftExact == Hard("C07_FftExact")         S_C07_FftExact == Soft("C07_FftExact")
 H_C07_FftBlock == Hard("C07_FftBlock")         S_C07_FftBlock == Soft("C07_FftBlock")
 H_C09_NoHeap == Hard("C09_NoHeap")             S_C09_NoHeap == Soft("C09_NoHeap")
+H_C11_MaskUntouched == Hard("C11_MaskUntouched") S_C11_MaskUntouched == Soft("C11_MaskUntouched")
 H_C12_RatioDomain == Hard("C12_RatioDomain")   S_C12_RatioDomain == Soft("C12_RatioDomain")
 H_C12_RejectNoop == Hard("C12_RejectNoop")     S_C12_RejectNoop == Soft("C12_RejectNoop")
 H_C12_ChunkDomain == Hard("C12_ChunkDomain")   S_C12_ChunkDomain == Soft("C12_ChunkDomain")
